@@ -133,11 +133,13 @@ theorem mslEvent_ok (u : Bool) : EvOk (mslEvent u) := by
       simp only [mslEvent] at h
       split at h
       · cases h
-      · simp at h; subst h
-        refine ⟨fun hb => (by cases hb), ?_⟩
-        intro b' hb _
-        cases hb
-        exact ⟨_, rfl, rfl, rfl⟩
+      · split at h
+        · cases h
+        · simp at h; subst h
+          refine ⟨fun hb => (by cases hb), ?_⟩
+          intro b' hb _
+          cases hb
+          exact ⟨_, rfl, rfl, rfl⟩
   | global n s ss k arr bl st =>
     simp only [mslEvent] at h
     split at h
@@ -145,11 +147,14 @@ theorem mslEvent_ok (u : Bool) : EvOk (mslEvent u) := by
     · cases ob with
       | none => simp at h; subst h; exact ⟨fun _ => rfl, fun b hb => by cases hb⟩
       | some b =>
-        simp at h; subst h
-        refine ⟨fun hb => (by cases hb), ?_⟩
-        intro b' hb _
-        cases hb
-        exact ⟨_, rfl, rfl, rfl⟩
+        simp only at h
+        split at h
+        · cases h
+        · simp at h; subst h
+          refine ⟨fun hb => (by cases hb), ?_⟩
+          intro b' hb _
+          cases hb
+          exact ⟨_, rfl, rfl, rfl⟩
 
 /-- names of the externally bound declarations of group `g`, in declaration order -/
 def boundNames (p : Params) (dflt g : Nat) (ds : List MDecl) : List String :=
